@@ -657,7 +657,117 @@ func sgStorm(a []string) string {
 	return "ok"
 }
 
+// sg.emitrace: an emission is a copy of the users of the signal followed by one write per user.  The first
+// user of the copy is a connection whose peer has stopped reading, so the emitter waits in that write; meanwhile
+// the second user unregisters and is acknowledged; then the first peer reads again and the emitter goes on to the
+// second user.  How many events for the removed registration reach the second connection after the acknowledgement?
+// (Props/C13Emit.lean: at most one, of the emission that was open — and `event_after_acknowledgement`: one.)
+func sgEmitRace(a []string) string {
+	w, res := sgNewWorld()
+	if res != "ok" {
+		return res
+	}
+	defer w.close()
+	// the first connection, by hand: authenticate, register for pong, stop reading
+	x, y := gonet.Pipe()
+	w.l.ch <- qnet.ConnStream(y)
+	defer x.Close()
+	ask := func(h qnet.Header, p []byte) (*qnet.Message, error) {
+		m := qnet.NewMessage(h, p)
+		werr := make(chan error, 1)
+		go func() { werr <- m.Write(x) }()
+		select {
+		case err := <-werr:
+			if err != nil {
+				return nil, err
+			}
+		case <-time.After(2 * time.Second):
+			return nil, fmt.Errorf("write timeout")
+		}
+		type rr struct {
+			m   *qnet.Message
+			err error
+		}
+		rch := make(chan rr, 1)
+		go func() {
+			r := new(qnet.Message)
+			err := r.Read(x)
+			rch <- rr{r, err}
+		}()
+		select {
+		case r := <-rch:
+			return r.m, r.err
+		case <-time.After(2 * time.Second):
+			return nil, fmt.Errorf("read timeout")
+		}
+	}
+	if _, err := ask(qnet.NewHeader(qnet.Call, 0, 0, 8, 1), auMap(nil)); err != nil {
+		return "setup-error:authenticate:" + err.Error()
+	}
+	reg := append(append(leBytes(4, 1), leBytes(4, 102)...), leBytes(8, 7)...)
+	if r, err := ask(qnet.NewHeader(qnet.Call, 1, 1, 0, 2), reg); err != nil || r.Header.Type != qnet.Reply {
+		return fmt.Sprintf("setup-error:registerEvent:%v", err)
+	}
+	// the second connection: an ordinary subscriber, and an observer of the event frames that reach its endpoint
+	c, err := w.connect()
+	if err != nil {
+		return "setup-error:" + err.Error()
+	}
+	frames := make(chan *qnet.Message, 64)
+	c.ep.MakeHandler(func(hd *qnet.Header) (bool, bool) { return hd.Type == qnet.Event && hd.Action == 102, true }, frames, nil)
+	s := w.subscribe(0)
+	if !sgWait(s.acked, 3*time.Second) || s.err != nil {
+		return "setup-error:subscribe"
+	}
+	// the emission: it waits in the write to the first connection
+	emitted := make(chan error, 1)
+	go func() { emitted <- w.impl.h.SignalPong("late?") }()
+	select {
+	case <-emitted:
+		return "setup-error:the emission did not wait for the first connection"
+	case <-time.After(40 * time.Millisecond):
+	}
+	before := len(frames)
+	// the second subscriber leaves: its unregistration is acknowledged (cancel returns after the reply)
+	done := make(chan struct{})
+	go func() { s.cancel(); close(done) }()
+	if !sgWait(done, 3*time.Second) {
+		return "stuck-cancel"
+	}
+	atAck := len(frames)
+	// the first peer reads again
+	go func() {
+		for {
+			r := new(qnet.Message)
+			if r.Read(x) != nil {
+				return
+			}
+		}
+	}()
+	select {
+	case <-emitted:
+	case <-time.After(3 * time.Second):
+		return "stuck-emission"
+	}
+	c.barrier()
+	late := len(frames) - atAck
+	if before != 0 || atAck != 0 {
+		return fmt.Sprintf("events-before-the-acknowledgement=%d", atAck)
+	}
+	return fmt.Sprintf("late=%d", late)
+}
+
+var sgLastRace string
+
 func init() {
+	executors["sg.emitrace"] = func(a []string) string {
+		r := sgEmitRace(a)
+		sgLastRace = r
+		if r == "late=0" || r == "late=1" {
+			return "late<=1"
+		}
+		return r
+	}
 	for _, op := range []string{"subfail", "observe", "oterm", "holdunreg", "reset", "conn", "hold", "release", "sub", "cancel", "emit", "call", "got", "osub", "ocancel", "oemit", "ogot"} {
 		executors["sg."+op] = execSg(op)
 	}
@@ -869,6 +979,13 @@ func runC13(r *Rand, tier string, o *Out) {
 	} {
 		o.Do("P", l, true)
 	}
+	// an unregistration acknowledged while an emission is between its copy of the users and its writes
+	if out := o.Do("P", "sg.emitrace", true); sgLastRace == "late=1" {
+		o.Fail("an event is sent after the acknowledgement of the removal: the emission had copied the users before", "sg.emitrace => late=1")
+	} else if out != "late<=1" {
+		o.Fail("subscriptions: emission against unregistration: "+out, "sg.emitrace => "+out)
+	}
+	o.Count("scenario:unregistration-during-an-emission")
 	// events already queued for a subscriber when it asks to cancel are dropped (known finding)
 	if out := o.Do("P", "sg.burstcancel 80", true); sgLastBurst == "lost" {
 		o.Fail("events queued for a subscriber are dropped when it cancels", "sg.burstcancel 80 => lost")
